@@ -230,6 +230,16 @@ let handle (fields : string list) : string =
     (* after a transport error the channel is closed: nothing later belongs to it *)
     let rec upto = function [] -> [] | "C" :: _ -> ["C"] | x :: t -> x :: upto t in
     String.concat " " ("O" :: upto evs)
+  | ["fanchk"; mode; expected; obs] ->
+    let nl s = if s = "-" then [] else List.map n_of_string (split ',' s) in
+    let exp = List.map nl (split ';' expected) in
+    let o = nl obs in
+    let ok = (match mode with
+      | "exact" -> fan_ok exp o
+      | "sub" -> fan_sub_ok exp o
+      | "eq" -> (match exp with [e] -> list_eqb_nat e o | _ -> false)
+      | _ -> failwith "bad fanchk mode") in
+    if ok then "ok" else "violated"
   | ["tsmono"; ops] ->
     let ts = List.filter_map (fun op -> match split '@' op with
                                 | [_; now] -> if now = "0" then None else Some (n_of_string now)
